@@ -37,4 +37,17 @@ theorem paeth_u8 (a b c : UInt8) :
   rcases paeth_cases a.toNat b.toNat c.toNat with h | h | h <;> rw [h] <;>
     · rw [toNat_ofNat_lt _ (by omega)]; omega
 
+theorem shl_or_mask (v x n : Nat) : (v <<< n) ||| (x &&& ((1 <<< n) - 1)) = v * 2 ^ n + x % 2 ^ n := by
+  have h1 : (1 <<< n) = 2 ^ n := by simp [Nat.shiftLeft_eq]
+  rw [h1, Nat.and_two_pow_sub_one_eq_mod]
+  have hlt : x % 2 ^ n < 2 ^ n := Nat.mod_lt _ (Nat.two_pow_pos n)
+  rw [← Nat.shiftLeft_add_eq_or_of_lt hlt, Nat.shiftLeft_eq]
+
+theorem lzwTakeAll_eq (v bits buff r : Nat) :
+    lzwTakeAll v bits buff r = v * 2 ^ bits + buff / 2 ^ (r - bits) % 2 ^ bits := by
+  simp only [lzwTakeAll, shl_or_mask, Nat.shiftRight_eq_div_pow]
+
+theorem lzwTakePart_eq (v r buff : Nat) : lzwTakePart v r buff = v * 2 ^ r + buff % 2 ^ r := by
+  simp only [lzwTakePart, shl_or_mask]
+
 end PdfVerif.Filters
